@@ -193,6 +193,9 @@ inline Program gen_general(Tape & t, int size, const GenOpts & go) {
     // one program in twelve has no FSR signal at all (VSR signals with annotations, the global annotation signal, user data): the
     // repair path of jls_rd_open then ends with a pointer walk instead of an FSR rebuild (found late: F-C19-3)
     const bool no_fsr = go.allow_vsr && t.chance(1, 12);
+    // decided here, with early draws (Appendix C #32: a draw at the end of a long program comes from an exhausted tape and is 0)
+    const bool tail28 = t.chance(1, 10);
+    const uint64_t tail28_seed = t.u64();
     struct Plan { int id; const DType * dt; StoredDef sd; bool fsr; int64_t first, written, total; Pattern pat; int64_t anno_ts; int64_t utc_id; int64_t utc; bool defined; Op def; bool utc_any = false; };
     std::vector<Plan> plans;
     for (int s = 0; s < nsig; ++s) {
@@ -312,9 +315,9 @@ inline Program gen_general(Tape & t, int size, const GenOpts & go) {
         }
     }
     for (auto & q : plans) if (!q.defined && t.coin()) define(q);
-    if (t.chance(1, 10)) {   // ... and as the very last chunk of the file (END follows it directly)
+    if (tail28) {   // ... and as the very last chunk of the file (END follows it directly)
         Op u; u.op = "user"; u.meta = 5; u.stor = 1; u.data.gen = false; u.data.lit.assign(28, 0x11);
-        for (int q = 0; q < 28; ++q) u.data.lit[(size_t) q] = (uint8_t) (t.raw() >> 7);
+        for (int q = 0; q < 28; ++q) u.data.lit[(size_t) q] = (uint8_t) (mix64(tail28_seed, (uint64_t) q) >> 11);
         u.data.lit[20] = 28; u.data.lit[21] = 0; u.data.lit[22] = 0; u.data.lit[23] = 0; u.data.n = 28;
         p.ops.push_back(u);
     }
